@@ -14,10 +14,16 @@ WRAPF  := $(foreach w,$(WRAPS),-Wl,--wrap=$(w))
 
 # in-process properties / properties under the deterministic scheduler (DST)
 PURE   := C17 C19 C18
-DST    := C05 C15 C06 C08
+DST    := C05 C15 C06 C08 C09
 ALL    := $(PURE) $(DST)
 
 all: $(addprefix $(B)/bin/,$(ALL))
+
+# always let ninja decide whether /repo changed (cheap when nothing did)
+.PHONY: FORCE
+FORCE:
+$(LIBNNG): FORCE
+	@$(V)/build.sh san
 
 $(B)/obj/%.o: $(V)/engine/%.c $(LIBNNG)
 	@mkdir -p $(B)/obj
